@@ -486,6 +486,9 @@ func TestVerifC10(t *testing.T) {
 		if err != nil {
 			t.Fatalf("HARNESS-ERROR replay: %v", err)
 		}
+		if rp.Kind == "shared-pair" {
+			return // a replay of the concurrent half (TestVerifC10Shared)
+		}
 		c10RunReplay(t, rep, agg, rp)
 		c10Emit(rep, agg, nil)
 		return
